@@ -10,6 +10,7 @@ package main
 import (
 	"fmt"
 	"math"
+	"strings"
 	"sync"
 	"sync/atomic"
 	"time"
@@ -686,11 +687,24 @@ func tieExpo(m *dto.Metric) string {
 		emit.F(hh.GetSampleSum()), decode(hh.PositiveSpan, hh.PositiveDelta), decode(hh.NegativeSpan, hh.NegativeDelta))
 }
 
+type tieTarget interface {
+	Observe(float64)
+	Write(*dto.Metric) error
+}
+
+// op kinds of the tie stream: 0 Observe v, 1 Write, 2 timer poll (fire a pending reset callback), 3 advance the clock by d ns
+type tieOp struct {
+	kind int
+	v    float64
+	d    int64
+}
+
 func runTie(c *cli.Ctx) error {
 	r := emit.NewRng(c.Seed ^ 0x5ca1ab1e)
 	w := emit.NewWriter(c.Out, "C05", "tie")
-	maint := 0
-	for it := 0; it < 1500*c.Scale; it++ {
+	maint, resets := 0, 0
+	for it := 0; it < 1800*c.Scale; it++ {
+		withReset := it%3 == 2 // a third of the runs: MinResetDuration > 0, injected clock, timer thread
 		factor := []float64{1.1, 1.5, 2, 4, 1.0002, 16}[r.Intn(6)]
 		var zt float64
 		switch r.Intn(3) {
@@ -709,22 +723,48 @@ func runTie(c *cli.Ctx) error {
 				maxZT = math.MaxFloat64
 			}
 		}
+		minReset := int64(0)
+		if withReset {
+			minReset = 1000
+			maxB = uint32(1 + r.Intn(3))
+		}
 		schema := prometheus.VerifC04PickSchema(factor)
 		nthreads := 2 + r.Intn(3)
-		progs := make([][]op, nthreads)
+		progs := make([][]tieOp, nthreads)
 		for t := range progs {
 			n := 1 + r.Intn(4)
 			for i := 0; i < n; i++ {
 				if t == 0 && r.Chance(1, 2) || r.Chance(1, 6) {
-					progs[t] = append(progs[t], op{write: true})
+					progs[t] = append(progs[t], tieOp{kind: 1})
 				} else {
-					progs[t] = append(progs[t], op{v: genValue(r)})
+					progs[t] = append(progs[t], tieOp{kind: 0, v: genValue(r)})
 				}
 			}
 		}
-		h := prometheus.NewHistogram(prometheus.HistogramOpts{Name: "h",
+		if withReset {
+			var tp []tieOp
+			n := 2 + r.Intn(5)
+			for i := 0; i < n; i++ {
+				if r.Chance(1, 2) {
+					tp = append(tp, tieOp{kind: 2})
+				} else {
+					tp = append(tp, tieOp{kind: 3, d: []int64{0, 400, 1000, 2500}[r.Intn(4)]})
+				}
+			}
+			progs = append(progs, tp)
+			nthreads++
+		}
+		opts := prometheus.HistogramOpts{Name: "h",
 			NativeHistogramBucketFactor: factor, NativeHistogramZeroThreshold: zt, NativeHistogramMaxBucketNumber: maxB,
-			NativeHistogramMaxZeroThreshold: maxZT, NativeHistogramMinResetDuration: 0, NativeHistogramMaxExemplars: -1})
+			NativeHistogramMaxZeroThreshold: maxZT, NativeHistogramMinResetDuration: time.Duration(minReset), NativeHistogramMaxExemplars: -1}
+		var h tieTarget
+		var vh *prometheus.VerifC04Hist
+		if withReset {
+			vh = prometheus.VerifC04New(opts, time.Unix(1000, 0))
+			h = vh
+		} else {
+			h = prometheus.NewHistogram(opts).(tieTarget)
+		}
 		recs := make([][]tieCall, nthreads)
 		bodies := make([]func(), nthreads)
 		for t := range progs {
@@ -733,12 +773,21 @@ func runTie(c *cli.Ctx) error {
 				for i, o := range progs[t] {
 					inv := vsched.Now()
 					ret := emit.C(0)
-					if o.write {
+					switch o.kind {
+					case 1:
 						var m dto.Metric
 						h.Write(&m)
 						ret = emit.C(1, tieExpo(&m))
-					} else {
+					case 0:
 						h.Observe(o.v)
+					case 2:
+						vsched.Point("timer-poll")
+						if vh.Fire() {
+							resets++
+						}
+					case 3:
+						vsched.Point("clock")
+						vh.Advance(time.Duration(o.d))
 					}
 					recs[t] = append(recs[t], tieCall{tid: t, idx: i, ret: ret, inv: inv, res: vsched.Now()})
 				}
@@ -746,6 +795,9 @@ func runTie(c *cli.Ctx) error {
 		}
 		rr := r.Fork()
 		style := it % 3
+		if withReset {
+			style = rr.Intn(3)
+		}
 		last := -1
 		victim := rr.Intn(nthreads)
 		freezeAfter := 1 + rr.Intn(12)
@@ -790,26 +842,41 @@ func runTie(c *cli.Ctx) error {
 		for i, p := range progs {
 			os := make([]string, len(p))
 			for j, o := range p {
-				if o.write {
+				switch o.kind {
+				case 1:
 					os[j] = emit.C(1)
-				} else {
+				case 0:
 					os[j] = emit.C(0, emit.F(o.v))
+				case 2:
+					os[j] = emit.C(2)
+				case 3:
+					os[j] = emit.C(3, emit.Z(o.d))
 				}
 			}
 			ps[i] = emit.L(os)
 		}
 		sched, tr := schedx.TraceSx(res.Trace, true)
 		tags := []string{fmt.Sprintf("threads:%d", nthreads), fmt.Sprintf("maxbuckets:%d", maxB)}
+		if withReset {
+			tags = append(tags, "reset-configured")
+		}
 		for _, s := range res.Trace {
 			if s.Label == "Map.LoadAndDelete" || s.Label == "Map.Delete" {
-				tags = append(tags, "widen-or-halve-in-trace")
+				tags = append(tags, "widen-or-halve-or-reset-in-trace")
 				maint++
 				break
 			}
 		}
-		cfgSx := emit.Tup(emit.Z(int64(schema)), emit.F(zt), emit.U(uint64(maxB)), emit.F(maxZT))
+		for _, s := range res.Trace {
+			if strings.HasPrefix(s.Label, "SwapUint64") {
+				tags = append(tags, "reset-swap-in-trace")
+				break
+			}
+		}
+		cfgSx := emit.Tup(emit.Z(int64(schema)), emit.F(zt), emit.U(uint64(maxB)), emit.F(maxZT), emit.Z(minReset))
 		w.Add(emit.Tup(emit.I(3), cfgSx, emit.L(ps), sched, tr, emit.L(all), emit.I(schedx.Flags(res))), len(res.Trace) >= 12, tags...)
 	}
-	w.Extra["runs_with_widen_or_halve"] = maint
+	w.Extra["runs_with_widen_halve_or_reset_deletes"] = maint
+	w.Extra["timer_callbacks_fired"] = resets
 	return w.Flush()
 }
